@@ -644,11 +644,34 @@ def spec_nan(vals, kind):
 
 
 # ------------------------------------------------------------- numpy shim
+class _Over(dict):
+    """override table of a SymNP instance: entries shadow class attributes"""
+
+    def __init__(self, owner):
+        dict.__init__(self)
+        self.owner = owner
+
+    def __setitem__(self, k, v):
+        dict.__setitem__(self, k, v)
+        object.__setattr__(self.owner, k, v)
+
+    def pop(self, k, *d):
+        r = dict.pop(self, k, *d)
+        try:
+            object.__delattr__(self.owner, k)
+        except AttributeError:
+            pass
+        return r
+
+
 class SymNP:
     """stands in for the ``np`` global of re-bound dclab functions"""
 
     def __init__(self, **over):
-        self._over = over
+        # overrides must win over the class attributes of the same name
+        object.__setattr__(self, "_over", _Over(self))
+        for k, v in over.items():
+            self._over[k] = v
 
     def __getattr__(self, k):
         if k in self._over:
@@ -674,6 +697,9 @@ class SymNP:
     # constructors ----------------------------------------------------
     @staticmethod
     def atleast_2d(a):
+        if not isinstance(a, (SArr, real_np.ndarray, list, tuple)) and \
+                len(getattr(a, "shape", ())) >= 2:
+            return a                      # array-like with >= 2 dimensions
         if isinstance(a, SArr):
             if a.item_shape:
                 return a
@@ -699,6 +725,9 @@ class SymNP:
 
     @staticmethod
     def array(a, dtype=None, copy=True, *args, **kw):
+        if hasattr(a, "src") and hasattr(a, "shape") and \
+                not isinstance(a, real_np.ndarray):
+            return a                      # opaque payload token
         if hasattr(a, "__symarray__"):
             a = a.__symarray__()
         if isinstance(a, (SArr, SMat)):
@@ -832,28 +861,52 @@ class SymNP:
             else a
 
     @staticmethod
-    def nanmin(a):
-        return nanreduce(_elems(a), "min")
+    def nanmin(a, *args, **kw):
+        el = _elems(a)
+        if isinstance(a, (list, tuple, real_np.ndarray)) and all(
+                isinstance(x, (int, float, real_np.generic)) for x in el):
+            return getattr(real_np, "nanmin")(a, *args, **kw)
+        return nanreduce(el, "min")
 
     @staticmethod
-    def nanmax(a):
-        return nanreduce(_elems(a), "max")
+    def nanmax(a, *args, **kw):
+        el = _elems(a)
+        if isinstance(a, (list, tuple, real_np.ndarray)) and all(
+                isinstance(x, (int, float, real_np.generic)) for x in el):
+            return getattr(real_np, "nanmax")(a, *args, **kw)
+        return nanreduce(el, "max")
 
     @staticmethod
-    def nanmean(a):
-        return nanreduce(_elems(a), "mean")
+    def nanmean(a, *args, **kw):
+        el = _elems(a)
+        if isinstance(a, (list, tuple, real_np.ndarray)) and all(
+                isinstance(x, (int, float, real_np.generic)) for x in el):
+            return getattr(real_np, "nanmean")(a, *args, **kw)
+        return nanreduce(el, "mean")
 
     @staticmethod
-    def min(a):
-        return nanreduce(_elems(a), "min", skipnan=False)
+    def min(a, *args, **kw):
+        el = _elems(a)
+        if isinstance(a, (list, tuple, real_np.ndarray)) and all(
+                isinstance(x, (int, float, real_np.generic)) for x in el):
+            return getattr(real_np, "min")(a, *args, **kw)
+        return nanreduce(el, "min", skipnan=False)
 
     @staticmethod
-    def max(a):
-        return nanreduce(_elems(a), "max", skipnan=False)
+    def max(a, *args, **kw):
+        el = _elems(a)
+        if isinstance(a, (list, tuple, real_np.ndarray)) and all(
+                isinstance(x, (int, float, real_np.generic)) for x in el):
+            return getattr(real_np, "max")(a, *args, **kw)
+        return nanreduce(el, "max", skipnan=False)
 
     @staticmethod
-    def mean(a):
-        return nanreduce(_elems(a), "mean", skipnan=False)
+    def mean(a, *args, **kw):
+        el = _elems(a)
+        if isinstance(a, (list, tuple, real_np.ndarray)) and all(
+                isinstance(x, (int, float, real_np.generic)) for x in el):
+            return getattr(real_np, "mean")(a, *args, **kw)
+        return nanreduce(el, "mean", skipnan=False)
 
     @staticmethod
     def where(c, *args):
